@@ -195,8 +195,8 @@ def instance_state(model, res, c, R='R2'):
                 names = [t.id for t in node.targets if isinstance(t, ast.Name)]
                 for nm in names:
                     assigned = any(a == nm for (cn, a) in stores)
-                    res.ob(R, '%s:%s.%s' % (m.name, cls.name, nm), 'class-level mutable container', assigned,
-                           'shadowed per instance in __init__' if assigned else 'shared by all instances')
+                    res.ob(R, '%s:%s.%s' % (m.name, cls.name, nm), 'class-level mutable container', assigned or (cls.name, nm) not in mutated,
+                           'shadowed per instance in __init__' if assigned else 'shared by all instances, never mutated through self')
                     if not assigned and (cls.name, nm) in mutated:
                         pass    # reported in (a)
 
